@@ -102,7 +102,7 @@ RULE = (
     "collinear exponentials / damped oscillations / column- and globally rescaled (1e-150..1e150) / exact dyadic Householder "
     "products; sizes n=0..8, m=n..300 with boundaries m=n, n=1, m=1, n=0, 300x8; y in the column space (signed / non-negative "
     "coefficients), orthogonal to it, generic, zero, unit vector, near the column space, scaled 1e+-150/1e+-20; matrix C-, F-ordered or "
-    "a strided view, data contiguous or a column slice of a 2-D array (as the providers pass it). Each instance goes through "
+    "a strided view or single precision (float32) storage when exact, data contiguous or a column slice of a 2-D array (as the providers pass it). Each instance goes through "
     "both real kernels, the long-double oracle, the exact model on LAPACK's (qr,tau), exact certificates of the float "
     "outputs, exact normal-equation / KKT references (sizes permitting). Dispatch: every key of the regenerated table, the "
     "default, misspelt keys, through EstimationProvider and through optimize() on one-dataset schemes with 1-3 global "
@@ -443,7 +443,7 @@ def rand_instance(rng, kernel=None, small=False):
             if not (1e-250 <= ratio and ratio * k <= 1e250):
                 continue
         return {"family": family, "ykind": ykind, "A": hx(A), "y": hx(y), "m": m, "n": n,
-                "layout": rng.choice(["C", "F", "strided"]), "ylayout": rng.choice(["contig", "colslice"]),
+                "layout": _layout(rng, A), "ylayout": rng.choice(["contig", "colslice"]),
                 "kernels": [kernel] if kernel else list(KERNELS), "ascale": ascale, "yscale": yscale}
     raise core.HarnessError("generator could not produce a matrix with condition <= 1e10")
 
@@ -508,7 +508,7 @@ def exact_instance(rng):
         assert Fraction(float(v)) == v
     Af = np.array([[float(v) for v in row] for row in A], dtype=np.float64).reshape(m, n)
     return {"family": "exact-qr", "ykind": kind, "A": hx(Af), "y": hx([float(v) for v in y]), "m": m, "n": n,
-            "layout": rng.choice(["C", "F", "strided"]), "ylayout": rng.choice(["contig", "colslice"]),
+            "layout": _layout(rng, Af), "ylayout": rng.choice(["contig", "colslice"]),
             "kernels": list(KERNELS), "ascale": 1.0, "yscale": 1.0,
             "qr": [[str(v) for v in row] for row in qr], "tau": [str(v) for v in tau]}
 
@@ -552,6 +552,16 @@ def boundary_instances(rng):
     return out
 
 
+def _layout(rng, A):
+    """memory layout / storage dtype of the matrix: C, Fortran, a strided view, or — when every entry is exactly
+    representable — single precision storage (the kernels must still solve in double precision)"""
+    lay = rng.choice(["C", "F", "strided"])
+    A = np.asarray(A, dtype=np.float64)
+    if A.size and rng.random() < 0.35 and np.array_equal(A.astype(np.float32).astype(np.float64), A):
+        lay = "f32"
+    return lay
+
+
 def realize(inst):
     """numpy arrays with the requested memory layout; returns (A_view, y_view, A0, y0)"""
     A0 = unhx(inst["A"], 2).reshape(inst["m"], inst["n"])
@@ -560,6 +570,9 @@ def realize(inst):
     lay = inst.get("layout", "C")
     if lay == "F":
         a = np.asfortranarray(A0.copy())
+    elif lay == "f32":
+        # the same numbers stored in single precision (a megacomplex may return float32 matrices); only chosen when exact
+        a = A0.astype(np.float32)
     elif lay == "strided":
         big = np.full((2 * m + 1, 3 * n + 2), 7.25)
         a = big[1:2 * m + 1:2, 1:3 * n + 1:3]
